@@ -302,7 +302,7 @@ def load_known():
     if os.path.exists(KNOWN):
         for l in open(KNOWN):
             l = l.strip()
-            if l and not l.startswith("#"):
+            if l and not l.startswith("#") and not l.startswith("fixed:"):
                 out.append(json.loads(l))
     return out
 
